@@ -13,7 +13,8 @@ EXPLANATION = (
     "cleared before the send, unicast routing, and F15 — the query ID reaches write_header on a feasible path.  "
     "Decides these necessary conditions, not set equality of answers over all query mixes."
     " (g,h) The answer builders use rename-resolved names and the answering service is found by scanning my_services for resolve_name(key) == question name, never by the registered key."
-    " (j) In add_interface every announce attempt is followed on all paths by a status write for that interface. (k) The known-answer formula (shared with C10a).")
+    " (j) In add_interface every announce attempt is followed on all paths by a status write for that interface. (k) The known-answer formula (shared with C10a)."
+    " (l) Before its question loop handle_query returns only for an unknown socket / registry / interface. (m) No byte-wise string test on the question name stands in front of all answer sites. (n) add_additional_answer leaves a record out only behind a full-record comparison.")
 UNDECIDED = ["'exactly the records that match each question' as a set equality over all query mixes",
              "subtype-question / answer-name relation", "interplay with known answers (C10)"]
 
